@@ -704,7 +704,7 @@ Lemma astep_factor st e : exists f, a_tau (astep st e) == a_tau st * f /\ (1#5) 
   (e = NewtonFail -> f == (1#2)).
 Proof.
   destruct e as [|r praw]; unfold astep.
-  - exists (1#2). simpl. repeat split; try lra. reflexivity.
+  - exists (1#2). simpl. repeat split; try lra; try reflexivity.
   - destruct (clip_fac_bounds praw) as [C1 C2].
     exists (clip_fac praw).
     destruct (Qle_bool (if Qeq_bool r 0 then 1 # 1000000000000000 else r) 1); simpl; repeat split; try lra; try reflexivity; discriminate.
@@ -724,4 +724,20 @@ Proof.
       * destruct (Qle_bool t_end (a_t (astep st e))); simpl in Hk; [lia|]. simpl.
         destruct (astep_factor st e) as (f & Hf & H1 & H2 & _). exists f. auto.
     + simpl. apply IH. lia.
+Qed.
+
+Lemma constant_driver_times_l : forall t0 tau quot,
+  length (const_times t0 tau quot (fun _ => false)) = S (const_num_iter quot) /\
+  forall k, (k <= const_num_iter quot)%nat ->
+    nth k (const_times t0 tau quot (fun _ => false)) 0 == t0 + inject_Z (Z.of_nat k) * tau.
+Proof. intros; split; [apply const_times_length_l | apply const_times_nth_l]. Qed.
+
+Lemma adaptive_accept_full_l : forall t0 tau0 t_end evs st,
+  0 < tau0 -> adaptive_loop t_end (adaptive_init t0 tau0) evs = Some st ->
+  Forall (fun p => snd p <= 1 /\ 0 < fst p) (a_log st) /\
+  length (a_times st) = S (length (a_log st)) /\
+  rev (a_times st) = psums t0 (rev (map fst (a_log st))).
+Proof.
+  intros t0 tau0 t_end evs st H0 H. destruct (adaptive_accept_l t0 tau0 t_end evs st H0 H) as [A B].
+  split; [exact A|]. split; [exact B|]. exact (adaptive_times_are_sums_l t0 tau0 t_end evs st H).
 Qed.
